@@ -61,6 +61,17 @@ func updRun(quick, thorough map[string]int) runSpec {
 	return runSpec{Harness: pkgWitness + ".VerifUpdateStep", Quick: quick, Thorough: thorough, Covers: updCovers}
 }
 
+// vcRuns are the H-VC harnesses: the real merkle verifier against the algebra, tlog.CheckTree and tlog.ProveTree.
+func vcRuns() []runSpec {
+	q, t := p("n", 8, "vc_inline", 1), p("n", 32, "vc_inline", 1)
+	return []runSpec{
+		{Harness: pkgWitness + ".VerifVCSound", Quick: q, Thorough: t, Covers: []string{"vc/accepts-growth", "vc/accepts-equal", "vc/rejects"}},
+		{Harness: pkgWitness + ".VerifVCAgree", Quick: q, Thorough: t, Covers: []string{"vc/both-accept", "vc/both-reject"}},
+		{Harness: pkgWitness + ".VerifVCEdge", Quick: p("vc_inline", 1), Thorough: p("vc_inline", 1), Covers: []string{"vc/edge"}},
+		{Harness: pkgWitness + ".VerifVCComplete", Quick: q, Thorough: t, Covers: []string{"vc/nontrivial-proof"}},
+	}
+}
+
 var checks = map[string]*checkSpec{}
 
 func reg(c *checkSpec) { checks[c.ID] = c }
@@ -68,9 +79,19 @@ func reg(c *checkSpec) { checks[c.ID] = c }
 func init() {
 	updQ := p("logs", 2, "signers", 2, "maxproof", 2)
 	updT := p("logs", 3, "signers", 3, "maxproof", 3)
+	updQs := p("logs", 2, "signers", 2, "maxproof", 2, "store", 1)
+	updTs := p("logs", 3, "signers", 3, "maxproof", 3, "store", 1)
 	for _, id := range []string{"C01", "C02", "C03", "C04", "C09", "C12", "C20"} {
-		reg(&checkSpec{ID: id, Runs: []runSpec{updRun(updQ, updT)}, Assumptions: commonAssumptions})
+		reg(&checkSpec{ID: id, Runs: []runSpec{updRun(updQ, updT), updRun(updQs, updTs)}, Assumptions: commonAssumptions})
 	}
+	reg(&checkSpec{ID: "C07", Assumptions: append([]string{"A-db: database/sql + SQLite contract model (harness/internal/verifrt/sqlmodel.go): commit is atomic and durable, failure applies nothing"}, commonAssumptions...), Runs: []runSpec{
+		{Harness: pkgWitness + ".VerifFaults", Quick: p("logs", 1, "signers", 1, "maxproof", 1, "store", 0), Thorough: p("logs", 2, "signers", 2, "maxproof", 2, "store", 0), Covers: []string{"flt/accepted-no-fault", "flt/refused-because-of-a-fault", "flt/read-error", "flt/second-update-accepted"}},
+		{Harness: pkgWitness + ".VerifFaults", Quick: p("logs", 1, "signers", 1, "maxproof", 1, "store", 1), Thorough: p("logs", 2, "signers", 2, "maxproof", 2, "store", 1), Covers: []string{"flt/accepted-no-fault", "flt/refused-because-of-a-fault", "flt/read-error", "flt/second-update-accepted"}},
+	}})
+	reg(&checkSpec{ID: "C06", Assumptions: append([]string{"A-db: database/sql + SQLite contract model: commit is atomic and durable; an uncommitted transaction leaves no trace after a crash; real SIGKILL / file system / cgo driver are outside the claim"}, commonAssumptions...), Runs: []runSpec{
+		{Harness: pkgWitness + ".VerifCrash", Quick: p("logs", 2, "signers", 1, "maxproof", 1, "boundaries", 12), Thorough: p("logs", 3, "signers", 2, "maxproof", 2, "boundaries", 14), Covers: []string{"crash/killed", "crash/killed-after-signing", "crash/completed", "crash/killed-after-commit", "crash/killed-before-commit"}},
+	}})
+	reg(&checkSpec{ID: "vc", Runs: vcRuns(), Assumptions: commonAssumptions})
 	reg(&checkSpec{ID: "litmus", Runs: []runSpec{
 		{Harness: pkgLitmus + ".Arith", Covers: []string{"L/cover-gt", "L/neg-int"}},
 		{Harness: pkgLitmus + ".Structs"},
